@@ -2,7 +2,7 @@
 # Runs the repository's baseline suite with the `verif` guard OFF and compares the
 # set of passing tests with /root/.vp/BASELINE.json (stable_pass).  exit 0 iff every
 # stable test still passes.
-export GOFLAGS=-mod=mod GOPROXY=off GOSUMDB=off GOTOOLCHAIN=local
+export GOFLAGS=-mod=readonly GOPROXY=off GOSUMDB=off GOTOOLCHAIN=local
 REPO=${VERIF_REPO:-/repo}
 OUT=$(mktemp)
 (cd "$REPO" && go test -json -vet=off -count=1 -timeout 25m ./... > "$OUT" 2>/dev/null)
